@@ -37,7 +37,7 @@ shutil.copy(f"{src}/patch.diff", f"{dst}/patch.diff")
 shutil.copy(f"{src}/demo.py", f"{dst}/demo.py")
 caught = [c for c, d in det.items() if d["exit"] == 1]
 missed = [c for c, d in det.items() if d["exit"] == 0]
-meta = {"property": prop, "round": 4, "breaks": notes.get("breaks"), "needs_to_manifest": notes.get("needs_to_manifest"),
+meta = {"property": prop, "round": int(os.environ.get("ROUND", "4")), "breaks": notes.get("breaks"), "needs_to_manifest": notes.get("needs_to_manifest"),
         "files_changed": notes.get("files_changed"),
         "origin": "independent sub-agent given only the property text (and the names of earlier seeded changes to avoid) "
                   "and a scratch worktree",
